@@ -234,6 +234,19 @@ class MoveAnalysis:
             # loop variable depends on what is iterated
             it = a.iter
             dep = self.derived(it, st) or (isinstance(it, ast.Call) and isinstance(it.func, ast.Name) and it.func.id == "range")
+            # for x in self.F: x.move(v)  /  for x in (self.F, self.G): x.move(v)   -- every element is translated in place:
+            # after the loop the field(s) are refreshed (the statement must be unconditional in the loop body)
+            if isinstance(a.target, ast.Name) and not a.orelse:
+                moved = any(isinstance(b, ast.Expr) and isinstance(b.value, ast.Call) and isinstance(b.value.func, ast.Attribute)
+                            and b.value.func.attr == "move" and isinstance(b.value.func.value, ast.Name) and b.value.func.value.id == a.target.id
+                            and len(b.value.args) == 1 and isinstance(b.value.args[0], ast.Name) and b.value.args[0].id == self.v
+                            for b in a.body)
+                no_jump = not any(isinstance(x, (ast.Break, ast.Continue, ast.Return)) for b in a.body for x in ast.walk(b))
+                if moved and no_jump:
+                    srcs = it.elts if isinstance(it, (ast.Tuple, ast.List)) else [it]
+                    fs = [self.self_field(x) for x in srcs]
+                    if all(f is not None for f in fs):
+                        fresh |= set(fs)
             # for i in range(3): self.F[i] += v[i]   -- the component-wise translation written as a loop over the three axes
             if isinstance(it, ast.Call) and isinstance(it.func, ast.Name) and it.func.id == "range" and len(it.args) == 1 \
                     and isinstance(it.args[0], ast.Constant) and it.args[0].value == 3 and isinstance(a.target, ast.Name) and not a.orelse:
